@@ -6,6 +6,7 @@ from typing import Tuple
 
 SPECIALS = {
     "C-[": "<ESC>",
+    "C-i": "<TAB>",
     "C-^": "<Ctrl-6>",
     "C-_": "<Ctrl-/>",
 }
